@@ -361,10 +361,28 @@ def trace(rep, meta, sfx):
             continue
         tparams = [p["id"] for p in fn["params"] if p.get("k") == "PBind" and "Vec<alloc::string::String>" in p.get("ty", "")
                    and p.get("ty", "").startswith("&mut")]
-        if len(tparams) != 1:
+        tid, tfield = None, None
+        if len(tparams) == 1:
+            tid = tparams[0]
+        else:
+            # the trace kept in a field of a search object: the Vec<String> field of self this function pushes to
+            pushed = set()
+            for x in walk(fn["body"]):
+                if kind(x) == "MethodCall" and x["m"] == "push":
+                    pl = hirq.place(x["recv"])
+                    if pl and pl[0] == "self" and pl[2] and "Vec<alloc::string::String>" in str(peel(x["recv"]).get("ty", "")):
+                        pushed.add(pl[2][0])
+            if len(pushed) == 1:
+                tfield = list(pushed)[0]
+        if tid is None and tfield is None:
             r.lost("trace parameter of " + fnpath)
             continue
-        tid = tparams[0]
+
+        def is_trace(e, tid=tid, tfield=tfield):
+            if tid is not None:
+                return hirq.local_id(e) == tid
+            pl = hirq.place(e)
+            return bool(pl) and pl[0] == "self" and pl[2][:1] == [tfield]
         ctx = hirq.Ctx(fn)
         # rule-following recursive calls: self-calls whose node argument derives from `rules.get(..)` - bound by an
         # enclosing `if let Some(node) = rules.get(name)`, or by an earlier `let node = match rules.get(name) {..}` /
@@ -381,7 +399,7 @@ def trace(rep, meta, sfx):
                     get_bound.add(bid)
         follow = []
         for n in walk(fn["body"]):
-            if kind(n) == "Call" and callee(n) == fnpath:
+            if kind(n) in ("Call", "MethodCall") and callee(n) == fnpath:
                 gs = ctx.guards(n)
                 via_get = any(g[0] == "if" and kind(peel(g[1])) == "LetExpr" and from_get(g[1]) for g in gs)
                 if not via_get and n["args"]:
@@ -399,7 +417,7 @@ def trace(rep, meta, sfx):
 
             def is_contains(e):
                 e = peel(e)
-                return kind(e) == "MethodCall" and e["m"] == "contains" and hirq.local_id(e["recv"]) == tid
+                return kind(e) == "MethodCall" and e["m"] == "contains" and is_trace(e["recv"])
             for g in gs:
                 if g[0] == "if" and g[2] is True:
                     for cj in conj(g[1]):
@@ -423,7 +441,7 @@ def trace(rep, meta, sfx):
                 for y in walk(g[1]):
                     if kind(y) == "MethodCall" and y["m"] in ("contains", "contains_key", "get", "binary_search"):
                         rid = hirq.local_id(y["recv"])
-                        if rid is None or rid == tid:
+                        if rid is None or is_trace(y["recv"]):
                             continue
                         if rid in mut_params or modes.get(rid):
                             r.violation(key + ":memo", where(y),
@@ -450,10 +468,10 @@ def trace(rep, meta, sfx):
                 if e.kind != "call":
                     continue
                 cal = callee(e.node)
-                if cal == "alloc::vec::Vec::push" and hirq.local_id(e.node["recv"]) == tid:
+                if cal == "alloc::vec::Vec::push" and is_trace(e.node["recv"]):
                     depth += 1
                     pushes += 1
-                elif cal == "alloc::vec::Vec::pop" and hirq.local_id(e.node["recv"]) == tid:
+                elif cal == "alloc::vec::Vec::pop" and is_trace(e.node["recv"]):
                     depth -= 1
                 elif cal == fnpath and depth > 0:
                     rec_after_push = True
@@ -477,6 +495,12 @@ def trace_entry(rep, meta, sfx):
     # the one place that may seed the trace: the left-recursion walk asks about the rule it is standing in
     seeded_ok = {CHECK: "seeds the trace with trace.last(): reaching the current rule again is left recursion, "
                         "reported by the walk itself"}
+    chk = meta.fn(CHECK)
+    if chk is not None and chk.get("impl_self"):
+        # the walk as methods of a search object: its helper methods ask on the walk's behalf
+        for f in meta.bodies:
+            if f.get("impl_self") == chk["impl_self"] and not f.get("impl_trait"):
+                seeded_ok.setdefault(f["path"], seeded_ok[CHECK])
     for fn in meta.bodies:
         if "::tests::" in fn["path"] or fn.get("exp") or fn["path"] in (NP, NF):
             continue
